@@ -111,6 +111,13 @@ func genC08(t *rapid.T) C08Case {
 			op.Val = rapid.IntRange(0, 1).Draw(t, "val")
 			b.Ops = append(b.Ops, op)
 		}
+		if rapid.IntRange(0, 2).Draw(t, "redelegate-scenario") == 0 {
+			// delegate part of what is delegatable, then try to delegate one unit more than what remains, over each path
+			first := rapid.SampledFrom([]string{"delegate", "exec-delegate", "eth-delegate"}).Draw(t, "sc-first")
+			second := rapid.SampledFrom([]string{"delegate", "exec-delegate", "eth-delegate", "eth-delegate"}).Draw(t, "sc-second")
+			b.Ops = append(b.Ops, C08Op{K: first, Mode: "abs", Abs: rapid.SampledFrom([]string{"1000", "500000"}).Draw(t, "sc-amt"), Val: 0},
+				C08Op{K: second, Mode: "delegatable", Off: rapid.SampledFrom([]int64{1, 1, 2, 1000000000000000000}).Draw(t, "sc-off"), Val: 1})
+		}
 		c.Blocks = append(c.Blocks, b)
 	}
 	return c
